@@ -376,7 +376,11 @@ void Future<void>::Private::FastSignal::set()
 void Future<void>::Private::FastSignal::reset()
 {
   if (Atomic::swap(_state, 0) == 1)
+  {
     _signal.reset();
+    if (Atomic::load(_state)) // a set() that came in between must not be wiped out by this (late) reset of the slow signal
+      _signal.set();
+  }
 }
 
 bool Future<void>::Private::FastSignal::wait()
